@@ -329,8 +329,8 @@ pub open spec fn ev(tf: TypeFunctions, w: W, e: Expr, r: Result<SourcedValue>, w
 
 SPEC = r"""
     ensures
-        (expr.0 is Var) ==> ev(context.builtins.type_functions, old(scopes).world(), *expr, r, final(scopes).world()), // [C20:reading_a_name_yields_its_innermost_declaration_or_an_error_at_that_name]
-        (expr.0 is BinaryOp) ==> ev(context.builtins.type_functions, old(scopes).world(), *expr, r, final(scopes).world()), // [C16:binary_operation_evaluates_lhs_then_rhs_once_and_applies_the_operator_to_them_in_order]
+        (expr.0 is Var) ==> ev(context.builtins.type_functions, old(scopes).world(), *expr, r, final(scopes).world()), // [C18_C20:reading_a_name_yields_its_innermost_declaration_or_an_error_at_that_name]
+        (expr.0 is BinaryOp) ==> ev(context.builtins.type_functions, old(scopes).world(), *expr, r, final(scopes).world()), // [C16_C18:binary_operation_evaluates_lhs_then_rhs_once_and_applies_the_operator_at_its_own_position_to_them_in_order]
         (expr.0 is Index) ==> ev(context.builtins.type_functions, old(scopes).world(), *expr, r, final(scopes).world()), // [C11_C12_C14:element_and_property_reads_attach_the_object_read_from_as_this_and_are_defined_exactly_inside_the_sequence_or_for_present_keys_and_are_errors_otherwise]
         (expr.0 is Prop) ==> ev(context.builtins.type_functions, old(scopes).world(), *expr, r, final(scopes).world()), // [C12_C14:dot_name_attaches_the_object_read_from_as_this_and_reads_the_same_property_as_index_by_that_string_and_type_functions_are_defined_for_every_value_but_null]
         (expr.0 is Object) ==> ev(context.builtins.type_functions, old(scopes).world(), *expr, r, final(scopes).world()), // [C12:object_literal_entries_are_evaluated_in_source_order_with_shorthand_spread_string_names_and_later_entries_winning]
